@@ -135,6 +135,7 @@ package mp4
 //@   requires c.Size() == 8 + sizeSum(c.GetChildren(), len(c.GetChildren()))
 //@   requires kidsOK(c.GetChildren())
 //@   requires len(c.Type()) == 4
+//@   ensures sw.(*bits.FixedSliceWriter).accError == nil ==> old(sw.(*bits.FixedSliceWriter).accError) == nil
 //@   ensures[C02] result == nil ==> adv(sw, int(c.Size()))
 //@   assigns sw.(*bits.FixedSliceWriter).off, sw.(*bits.FixedSliceWriter).accError, sw.(*bits.FixedSliceWriter).n, sw.(*bits.FixedSliceWriter).v, sw.(*bits.FixedSliceWriter).buf[:], ghost(sw).tr
 //@   loop 1 invariant idx(1) <= len(c.GetChildren())
